@@ -257,6 +257,11 @@ def gen_lifecycle(rng, out, i):
         d["frames"] = rng.choice([1, 2, 4, 7, -1])
         d["trigger"] = 1 if rng.random() < 0.2 else 0
         d["delay_ms"] = 0
+        if rng.random() < 0.25:
+            # a camera (not running) that rejects its settings once (the runtime retries) or twice in a row (the configure
+            # fails for that stream)
+            d["setfail"] = rng.randint(0, 7)
+            d["setfailn"] = rng.choice([1, 2, 2])
     fb = max(frame_bytes(d["w"], d["h"], d["type"]) for d in streams)
     lines += ["cap %d" % (int(fb * rng.choice([1.5, 2.5, 4.0, 8.0])) + 3), "fill 0", "streams 2", "noinit 1"]
     CFGS = ["0 0 -1 -1", "0 0 1 1", "1 1 -1 -1", "-1 -1 0 0", "0 1 1 0", "1 0 -1 -1", "-1 -1 -1 -1"]
